@@ -298,7 +298,7 @@ def check_case(ctx, case, record=True):
 def run_shard(ctx):
     @given(cases())
     def test(case):
-        check_case(ctx, case)
+        runner.guarded(ctx, check_case, case)
 
     runner.drive(ctx, test, ctx.n(16000, 80000))
 
@@ -306,7 +306,7 @@ def run_shard(ctx):
 def replay(ctx, case):
     case = uncanon(case)
     try:
-        check_case(ctx, case, record=False)
+        runner.guarded(ctx, check_case, case, record=False)
     except runner.Violation as v:
         return v.msg
     return None
